@@ -536,3 +536,100 @@ def handle_errors_violation(levels, fail_on_warning):
         except BaseException as e:  # noqa
             return f"raised {type(e).__name__}: {e}"
     return None if got == want else f"levels={levels} fail_on_warning={fail_on_warning}: exit={got}, expected {want}"
+
+
+# ---- hash-seed independence (native, bounded) -----------------------------------------------------------------------------
+
+def hashseed_violation(seeds=(0, 1, 2, 3, 4, 5)):
+    """generate the schematic documents under several PYTHONHASHSEED values in fresh interpreters and compare the trees"""
+    import hashlib
+    import json
+    import os
+    import subprocess
+    import sys
+    code = (
+        "import sys, json, hashlib, shutil\n"
+        "sys.path.insert(0, sys.argv[1]); sys.path.insert(0, sys.argv[2])\n"
+        "from pyvc.replay import generate_tree\n"
+        "import contracts.models_f as mf, contracts.endpoints_f as ef\n"
+        "from pyvc import sites\n"
+        "out = {}\n"
+        "for name, doc, cfg in (('models', mf.document('3.1.0')[0], {}), ('models-lit', mf.document('3.0.3')[0], {'literal_enums': True}),\n"
+        "                       ('endpoints', ef.document('3.0.3')[0], {}), ('slots', sites.slot_document(), {})):\n"
+        "    import contextlib, io\n"
+        "    with contextlib.redirect_stdout(io.StringIO()):\n"
+        "        errors, o, files, tmp = generate_tree(document=doc, config=cfg)\n"
+        "    for f, t in files.items():\n"
+        "        out[name + ':' + f] = hashlib.sha256((t or '').encode()).hexdigest()\n"
+        "    shutil.rmtree(tmp)\n"
+        "print(json.dumps(out))\n")
+    from .core import REPO, VERIF
+    trees = {}
+    for s in seeds:
+        env = dict(os.environ, PYTHONHASHSEED=str(s), PYTHONPATH=REPO + os.pathsep + VERIF)
+        p = subprocess.run([sys.executable, "-c", code, REPO, VERIF], capture_output=True, text=True, env=env, timeout=300)
+        if p.returncode != 0:
+            return f"generation failed under PYTHONHASHSEED={s}: {p.stderr[-300:]}"
+        trees[s] = json.loads(p.stdout.strip().splitlines()[-1])
+    base = trees[seeds[0]]
+    for s in seeds[1:]:
+        diff = sorted(k for k in set(base) | set(trees[s]) if base.get(k) != trees[s].get(k))
+        if diff:
+            return f"PYTHONHASHSEED={seeds[0]} and {s} generate different bytes for {diff[:5]}"
+    return None
+
+
+# ---- class name collisions between enums / models (EnumProperty.build, ModelProperty.build) -------------------------------
+
+def name_collision_cases(tier):
+    import itertools
+    vals = [["1h", "24h", "7d"], ["24h", "1h", "7d"], ["1h", "24h"], ["a", "b"], ["b", "a"]]
+    out = []
+    for v1, v2 in itertools.product(vals, repeat=2):
+        for order in (0, 1):
+            out.append({"kind": "enum-enum", "v1": v1, "v2": v2, "order": order})
+    for order in (0, 1):
+        for v in vals[:2]:
+            out.append({"kind": "model-enum", "v1": v, "order": order})
+            out.append({"kind": "model-model", "v1": v, "order": order})
+    return out
+
+
+def name_collision(case):
+    s = {"type": "string"}
+    if case["kind"] == "enum-enum":
+        a = {"Job": {"type": "object", "properties": {"retry_interval": {"type": "string", "enum": case["v1"]}}}}
+        b = {"JobRetry": {"type": "object", "properties": {"interval": {"type": "string", "enum": case["v2"]}}}}
+        items = 2
+    elif case["kind"] == "model-enum":
+        a = {"PetStatus": {"type": "object", "properties": {"x": s}}}
+        b = {"Pet": {"type": "object", "properties": {"status": {"type": "string", "enum": case["v1"]}}}}
+        items = 2
+    else:
+        a = {"FooBar": {"type": "object", "properties": {"x": s}}}
+        b = {"Foo_Bar": {"type": "object", "properties": {"y": s}}}
+        items = 2
+    schemas = {**a, **b} if case["order"] == 0 else {**b, **a}
+    try:
+        data = _parse(_base(schemas=schemas))
+    except _Timeout:
+        return "parser did not terminate"
+    except BaseException as e:  # noqa
+        return f"parser raised {type(e).__name__}: {str(e)[:100]}"
+    models = list(data.models)
+    enums = list(data.enums)
+    if data.errors:
+        return None        # a diagnostic was issued
+    if case["kind"] == "enum-enum":
+        # both declarations map to the class name JobRetryInterval: sharing one class without a diagnostic is only
+        # behaviour-preserving if value list and order (member names VALUE_i are positional) agree
+        naming = lambda vs: {v: (v.upper() if v[:1].isalpha() else f"VALUE_{i}") for i, v in enumerate(vs)}
+        if naming(case["v1"]) != naming(case["v2"]):
+            names = [e.class_info.name for e in enums]
+            if len(set(names)) < 2:
+                return f"two different enums {case['v1']} / {case['v2']} share the class {names} without a diagnostic"
+        return None
+    names = [m.class_info.name for m in models] + [e.class_info.name for e in enums]
+    if len(set(names)) < 2 or len(names) < 2:
+        return f"two document items collapsed into the generated classes {names} without a diagnostic"
+    return None
